@@ -416,7 +416,9 @@ func (c *client) executeWriteLoop(
 // sendExecutionResult finalizes the result entry for processing by the client's caller, and
 // closes then removes the channels for the signals.
 // The caller must have the mutex locked while calling this function.
-func (c *client) sendExecutionResult(runID string, result ExecutionResult) {
+// It returns whether the result went to a call that was waiting for it. A result that did not - no run of that ID, or
+// one that has its result already - is kept away from the caller; what that means is for whoever sent it to decide.
+func (c *client) sendExecutionResult(runID string, result ExecutionResult) (delivered bool) {
 	c.logger.Debugf("Sending results for run ID '%s'", runID)
 	resultEntry, found := c.runningStepResultEntries[runID]
 	if found {
@@ -424,6 +426,7 @@ func (c *client) sendExecutionResult(runID string, result ExecutionResult) {
 			// Send the result
 			resultEntry.result = &result
 			resultEntry.condition.Signal()
+			delivered = true
 		} else {
 			// The run already has its result; its caller just has not collected it yet. The first one stands: an
 			// error that is broadcast to all runs later on must not replace a result that arrived intact.
@@ -436,10 +439,11 @@ func (c *client) sendExecutionResult(runID string, result ExecutionResult) {
 	// Now close the signal channel, since it's invalid to send a signal after the step is complete.
 	signalChannel, found := c.runningStepEmittedSignalChannels[runID]
 	if !found {
-		return
+		return delivered
 	}
 	delete(c.runningStepEmittedSignalChannels, runID)
 	close(signalChannel)
+	return delivered
 }
 
 func (c *client) sendErrorToAll(err error) {
@@ -489,13 +493,12 @@ func (c *client) handleWorkDoneMessage(runtimeMessage DecodedRuntimeMessage) boo
 	}
 	result := c.processWorkDone(runtimeMessage.RunID, doneMessage)
 	c.mutex.Lock()
-	_, waiting := c.runningStepResultEntries[runtimeMessage.RunID]
-	if waiting {
-		c.sendExecutionResult(runtimeMessage.RunID, result)
-	}
+	delivered := c.sendExecutionResult(runtimeMessage.RunID, result)
 	c.mutex.Unlock()
-	if !waiting {
-		c.streamBroken(fmt.Errorf("received a result for run ID '%s', which is not running", runtimeMessage.RunID))
+	if !delivered {
+		// No correct peer sends a result for a run that is not running, or a second one for a run that has its first:
+		// the run ID has been damaged, and the result was that of some other run that is still waiting.
+		c.streamBroken(fmt.Errorf("received a result for run ID '%s', which is not waiting for one", runtimeMessage.RunID))
 		return true
 	}
 	return false
@@ -561,8 +564,14 @@ func (c *client) handleErrorMessage(runtimeMessage DecodedRuntimeMessage) bool {
 			c.sendErrorToAll(fmt.Errorf("step fatal error missing run id (%w)", resultMsg))
 		} else {
 			c.mutex.Lock()
-			c.sendExecutionResult(runtimeMessage.RunID, NewErrorExecutionResult(resultMsg))
+			delivered := c.sendExecutionResult(runtimeMessage.RunID, NewErrorExecutionResult(resultMsg))
 			c.mutex.Unlock()
+			if !delivered {
+				// A step fatal error ends a run like a result does: see handleWorkDoneMessage.
+				c.streamBroken(fmt.Errorf("received a step fatal error for run ID '%s', which is not waiting for a result (%w)",
+					runtimeMessage.RunID, resultMsg))
+				return true
+			}
 		}
 	}
 	return false
